@@ -300,3 +300,89 @@ pub fn client_batch_positional() -> Value {
 			"bound":"n=3: all reply sequences of length 2,3 over ids start-1..=start+3; n=4: all sequences of length 4 over in-range ids"})
 	})
 }
+
+// ------------------------------------------------------------------------------------------
+use jsonrpsee_core::server::{BatchResponseBuilder, MethodResponse, ResponsePayload};
+use jsonrpsee_types::Id;
+
+/// C08: sweep single results and batches around the limit through the real MethodResponse / BatchResponseBuilder.
+pub fn response_size_limit() -> Value {
+	let mut tried = 0u64;
+	// single results (success and error-with-data) of every size around the limit
+	for limit in [60usize, 100, 150] {
+		for pad in 0..(limit + 8) {
+			let s = "x".repeat(pad);
+			for as_error in [false, true] {
+				tried += 1;
+				let unbounded = if as_error {
+					MethodResponse::response(Id::Number(7), ResponsePayload::<()>::error(jsonrpsee_types::ErrorObject::owned(-32000, "e", Some(s.clone()))), usize::MAX)
+				} else {
+					MethodResponse::response(Id::Number(7), ResponsePayload::success(s.clone()), usize::MAX)
+				};
+				let bounded = if as_error {
+					MethodResponse::response(Id::Number(7), ResponsePayload::<()>::error(jsonrpsee_types::ErrorObject::owned(-32000, "e", Some(s.clone()))), limit)
+				} else {
+					MethodResponse::response(Id::Number(7), ResponsePayload::success(s.clone()), limit)
+				};
+				let full = unbounded.as_json().get().to_string();
+				let got = bounded.as_json().get().to_string();
+				let v: Value = serde_json::from_str(&got).unwrap();
+				if full.len() <= limit {
+					if got != full {
+						return json!({"probe":"response_size_limit","disagrees":true,"input":format!("single {} of {} bytes, limit {}", if as_error {"error"} else {"result"}, full.len(), limit),
+							"observed": got, "expected": full});
+					}
+				} else if got.len() > limit && v["error"]["code"] != json!(-32008) {
+					return json!({"probe":"response_size_limit","disagrees":true,"input":format!("single {} of {} bytes, limit {}", if as_error {"error"} else {"result"}, full.len(), limit),
+						"observed": format!("{} bytes sent: {}", got.len(), got), "expected":"error -32008 carrying id 7"});
+				} else if full.len() > limit && (v["error"]["code"] != json!(-32008) || v["id"] != json!(7)) {
+					return json!({"probe":"response_size_limit","disagrees":true,"input":format!("single {} of {} bytes, limit {}", if as_error {"error"} else {"result"}, full.len(), limit),
+						"observed": got, "expected":"error -32008 carrying id 7"});
+				}
+			}
+		}
+	}
+	// batches of 1..4 entries with the finished array from limit-3 to limit+3
+	for limit in [120usize, 200] {
+		for n in 1usize..=4 {
+			for total in (limit - 3)..=(limit + 3) {
+				// entries: {"jsonrpc":"2.0","id":1,"result":"<pad>"} ; array = 1 + sum(len) + (n-1) + 1
+				let base = MethodResponse::response(Id::Number(1), ResponsePayload::success(String::new()), usize::MAX).as_json().get().len();
+				let fixed = 2 + (n - 1) + n * base;
+				if total < fixed {
+					continue;
+				}
+				let extra = total - fixed;
+				tried += 1;
+				let mut b = BatchResponseBuilder::new_with_limit(limit);
+				let mut rejected = None;
+				for k in 0..n {
+					let pad = if k == 0 { extra } else { 0 };
+					let rp = MethodResponse::response(Id::Number(1), ResponsePayload::success("y".repeat(pad)), usize::MAX);
+					if let Err(e) = b.append(rp) {
+						rejected = Some(e.as_json().get().to_string());
+						break;
+					}
+				}
+				match rejected {
+					Some(err) => {
+						let v: Value = serde_json::from_str(&err).unwrap();
+						if total <= limit || v["error"]["code"] != json!(-32011) {
+							return json!({"probe":"response_size_limit","disagrees":true,"input":format!("batch of {n} entries, finished array {total} bytes, limit {limit}"),
+								"observed": format!("rejected with {err}"), "expected": if total <= limit {"array sent unchanged"} else {"error -32011"}});
+						}
+					}
+					None => {
+						let out = MethodResponse::from_batch(b.finish());
+						let len = out.as_json().get().len();
+						if total > limit || len != total {
+							return json!({"probe":"response_size_limit","disagrees":true,"input":format!("batch of {n} entries, finished array {total} bytes, limit {limit}"),
+								"observed": format!("array of {len} bytes was accepted"), "expected": if total > limit {"error -32011"} else {"array of exactly the computed length"}});
+						}
+					}
+				}
+			}
+		}
+	}
+	json!({"probe":"response_size_limit","disagrees":false,"inputs_tried":tried,"bound":"limits {60,100,150} x every payload size 0..limit+8 (result and error-with-data); batches of 1..4 entries with finished length limit-3..limit+3"})
+}
